@@ -270,3 +270,35 @@ impl<'a, T: Queryable> vstd::std_specs::convert::FromSpecImpl<Pointer<'a, T>> fo
 // E3: error values built with format! (message text dropped)
 #[verifier::external_body]
 pub fn vf_error() -> (e: JsonPathError) { unimplemented!() }
+
+// R6r: X.into_iter().map(F).reduce(G).unwrap_or(D)   (X: &Vec<A>) — assumed (primitive, relational):
+// F is applied to every element in order, the results are combined left to right with G, D is returned for no element
+// (the step relation is wrapped in a named predicate and used as the trigger: `acc[i]` as a trigger would
+//  create `acc[i - 1]` and loop)
+pub open spec fn reduce_step<B, G: Fn(B, B) -> B>(g: G, acc: Seq<B>, ys: Seq<B>, i: int) -> bool {
+    g.ensures((acc[i - 1], ys[i]), acc[i])
+}
+pub open spec fn map_reduce_ok<A, B, F: Fn(&A) -> B, G: Fn(B, B) -> B>(f: F, g: G, x: Seq<A>, ys: Seq<B>, acc: Seq<B>, r: B) -> bool {
+    ys.len() == x.len() && acc.len() == x.len() && x.len() > 0
+    && (forall|i: int| 0 <= i < x.len() ==> f.ensures((&x[i],), #[trigger] ys[i]))
+    && acc[0] == ys[0]
+    && (forall|i: int| 1 <= i < x.len() ==> #[trigger] reduce_step(g, acc, ys, i))
+    && r == acc[x.len() - 1]
+}
+#[verifier::external_body]
+pub fn vf_map_reduce_or<A, B, F: Fn(&A) -> B, G: Fn(B, B) -> B>(x: &Vec<A>, f: F, g: G, d: B) -> (r: B)
+    requires
+        forall|i: int| 0 <= i < x@.len() ==> f.requires((&#[trigger] x@[i],)),
+        forall|a: B, b: B| g.requires((a, b)),
+    ensures
+        x@.len() == 0 ==> r == d,
+        x@.len() > 0 ==> exists|ys: Seq<B>, acc: Seq<B>| map_reduce_ok(f, g, x@, ys, acc, r),
+{ x.into_iter().map(f).reduce(g).unwrap_or(d) }
+
+// E6: From<&T> for State (state.rs:19-23 calls State::root): assumed instance, only its shape is stated.
+// It is the value process_selectors returns for an EMPTY selector list, which wf excludes.
+impl<'a, T: Queryable> VfInto<State<'a, T>> for &'a T {
+    open spec fn vf_into_spec(self) -> State<'a, T> { root_state(self) }
+    #[verifier::external_body]
+    fn vf_into(self) -> (r: State<'a, T>) { unimplemented!() }
+}
